@@ -263,12 +263,15 @@ Definition sub_of (s : bytes) (r : arg * arg) : option (nat * bytes) :=
   | None => None
   end.
 (* optional count / maxsplit: negative = no limit; must be a machine-word int *)
-Definition opt_count (rest : list val) : option (option nat) :=
+Definition opt_count (rest : list val) : option (option Z) :=
   match rest with
   | [] => Some None
-  | [VInt z] => if word_int z then Some (if z <? 0 then None else Some (Z.to_nat z)) else None
+  | [VInt z] => if word_int z then Some (if z <? 0 then None else Some z) else None
   | _ => None
   end.
+(* a limit larger than `bound` is as good as `bound` (there are at most that many places to split) *)
+Definition cap (k : option Z) (bound : nat) : option nat :=
+  match k with None => None | Some z => Some (Z.to_nat (Z.min z (Z.of_nat bound))) end.
 Definition strs (l : list bytes) : val := VList (map VStr l).
 Definition elems_of (v : val) : option (list val) :=
   match v with VList l | VTuple l => Some l | _ => None end.
@@ -330,9 +333,11 @@ Definition spec_split (s : bytes) (args : list val) (right : bool) : option val 
       | None => None
       | Some k =>
           match sep with
-          | None => Some (strs (if right then rwsplit_spec s k else wsplit_spec s k))
+          | None => let k := cap k (S (length s)) in
+                    Some (strs (if right then rwsplit_spec s k else wsplit_spec s k))
           | Some [] => None
-          | Some sep => Some (strs (if right then rsplit_spec s sep k else split_spec s sep k))
+          | Some sep => let k := cap k (S (length s)) in
+                        Some (strs (if right then rsplit_spec s sep k else split_spec s sep k))
           end
       end in
   match args with
@@ -407,7 +412,7 @@ Definition spec_string_method (m : smeth) (s : bytes) (args : list val) : option
       match args with
       | VStr old :: VStr new :: rest =>
           match opt_count rest with
-          | Some k => Some (VStr (replace_spec s old new k))
+          | Some k => Some (VStr (replace_spec s old new (cap k (S (length s)))))
           | None => None
           end
       | _ => None
@@ -586,10 +591,10 @@ Definition spec_star (x y : val) : option val :=
   | VTuple l, VInt n | VInt n, VTuple l => option_map VTuple (repeat_spec l n)
   | _, _ => None
   end.
+(* spec.md "Concatenation": string + string, list + list, tuple + tuple *)
 Definition spec_plus (x y : val) : option val :=
   match x, y with
   | VStr a, VStr b => Some (VStr (a ++ b))
-  | VBytes a, VBytes b => Some (VBytes (a ++ b))
   | VList a, VList b => Some (VList (a ++ b))
   | VTuple a, VTuple b => Some (VTuple (a ++ b))
   | _, _ => None
